@@ -230,6 +230,8 @@ class Interp:
 
     def get_attr(self, base, attr: str, node):
         if isinstance(base, Obj):
+            if attr == "__class__":
+                return base.cls
             name = attr
             if attr.startswith("__") and not attr.endswith("__") and self.func.cls is not None:
                 name = self.func.cls.mangle(attr)
@@ -449,6 +451,12 @@ class Interp:
             return it.materialise()
         if isinstance(it, Class):
             return self.iterate_class(it, node)
+        if isinstance(it, Obj):
+            m = it.cls.lookup("__iter__")
+            if m is not None:
+                r = self.call_func(m, [], {}, node, self_obj=it)
+                if isinstance(r, list):
+                    return r
         raise Undecided(f"iteration over abstract value {it!r}")
 
     def assign(self, t: ast.expr, v):
@@ -637,6 +645,9 @@ class Interp:
         if isinstance(op, (ast.In, ast.NotIn)):
             if isinstance(r, _DictView):
                 r = r.materialise()
+            if isinstance(l, (Class, Func)) and isinstance(r, (list, tuple, set)):
+                res = any(x is l for x in r)
+                return res if isinstance(op, ast.In) else not res
             if isinstance(l, Obj) and isinstance(r, (list, tuple, dict, set)):
                 res = any(x is l for x in r)
                 if not res:
@@ -931,10 +942,31 @@ class Interp:
         sub.env = env
         sub.depth = self.depth + 1
         sub.root = self.root
+        is_gen = any(isinstance(n, (ast.Yield, ast.YieldFrom)) for n in _walk_no_nested(f.node))
+        if is_gen:
+            sub.yields = []
+            try:
+                sub.exec_block(f.node.body)
+            except _Return:
+                pass
+            return list(sub.yields)
         try:
             sub.exec_block(f.node.body)
         except _Return as r:
             return r.value
+        return None
+
+    def ev_Yield(self, e):
+        if not hasattr(self, "yields"):
+            raise Undecided("yield outside a modelled generator")
+        self.yields.append(self.eval(e.value) if e.value is not None else None)
+        return None
+
+    def ev_YieldFrom(self, e):
+        if not hasattr(self, "yields"):
+            raise Undecided("yield from outside a modelled generator")
+        for x in self.iterate(self.eval(e.value), e):
+            self.yields.append(x)
         return None
 
     def call_builtin(self, name, args, kwargs, node):
@@ -1056,6 +1088,18 @@ class _DictView:
 
     def __iter__(self):
         return iter(self.materialise())
+
+
+def _walk_no_nested(node):
+    stack = [node]
+    first = True
+    while stack:
+        n = stack.pop()
+        if not first and isinstance(n, (ast.FunctionDef, ast.AsyncFunctionDef, ast.ClassDef, ast.Lambda)):
+            continue
+        first = False
+        yield n
+        stack.extend(ast.iter_child_nodes(n))
 
 
 def _hashable(x):
